@@ -106,6 +106,9 @@ class C19(Property):
         'that the iteration converges for sulfuric acid in the documented range is sampled (oracle), not proved',
         'statelessness (a value does not depend on earlier calls: err_mult histories) and the option combinations constants x units x plain / same-prefix / '
         'mixed-prefix quantities of nernst_potential and electrical_mobility_from_D: oracle / correspondence only (the model is a pure function by construction)',
+        'argument SHAPE x unit (0-d, 1-d, 2-d numpy grids, T x P meshes, in own and scaled / foreign units) for all relations: oracle only (`mode: grid`, '
+        'element-wise the scalar oracle); the Lean model and the theorems are about scalars; python LISTS of quantities are refused by the plain-number mode '
+        'itself (TypeError) and are not judged',
         'Henry / HenryWithUnits with units=None and quantity arguments, and density_from_concentration with units: oracle on default_units only, no model op',
     )
     anchors = (('chempy/properties/sulfuric_acid_density_myhre_1998.py', 'sulfuric_acid_density'),
@@ -306,6 +309,45 @@ class C19(Property):
                          'usys': 'default', 'T_unit': 'K', 'co_unit': 'M', 'ci_unit': rng.choice(['bar', 'kg/mol'])})
                 else:
                     add({'fn': fn, 'mode': 'u2', 'T': g6(rng.uniform(280, 300)), 'usys': us, 'T_unit': rng.choice(['bar', 'M', 'm2/s'])})
+        # --- argument SHAPE x unit (oracle-only cases `mode: grid`): 0-d, 1-d, 2-d numpy grids and lists of quantities, in the units object's own
+        #     units and in scaled / foreign units; the oracle is the scalar one, element-wise
+        GF = ['water_density', 'water_viscosity', 'water_diffusivity', 'water_permittivity', 'sulfuric_acid_density', 'lg_solubility_ratio',
+              'henry_call', 'henry_get_c', 'henry_get_p', 'nernst', 'mobility']
+        for gi in range(max(44, n // 10)):
+            fn = GF[gi % len(GF)]
+            us = rng.choice(usys)
+            shape = rng.choice(['0d', '1d', '1d', '2d', '2d', 'list'])
+            if fn == 'sulfuric_acid_density':
+                shape = '0d'                 # float(t_K): the function takes scalars (and 0-d arrays) only, also without units
+            rows, cols = rng.randint(2, 5), rng.randint(2, 4)
+            npts = {'0d': 1, '1d': rows, '2d': rows * cols, 'list': rows}[shape]
+            lo, hi = REF_RANGES.get(fn, (273.15, 373.15))
+            own = 'mK' if us == 'alt_mK' else 'K'
+            c = {'fn': fn, 'mode': 'grid', 'shape': shape, 'rows': rows, 'cols': cols, 'usys': us,
+                 'T_unit': rng.choice([own, own, 'K', 'mK', 'degR', 'kK']),
+                 'Ts': [g6(rng.uniform(lo + 1, hi - 1)) for _ in range(npts)]}
+            if fn == 'water_permittivity':
+                c['Ps'] = [g6(rng.uniform(1, 1900)) for _ in range(cols if shape == '2d' else npts)]
+                c['P_unit'] = rng.choice(['bar', 'Pa', 'kPa', 'atm', 'MPa'])
+            if fn == 'sulfuric_acid_density':
+                c['w'] = g6(rng.uniform(0.1, 0.9))
+            if fn == 'lg_solubility_ratio':
+                c['keys'] = rng.sample(ION_KEYS, rng.randint(1, 3))
+                c['gas'] = rng.choice(GAS_KEYS)
+                c['concs'] = [[lu(1e-3, 3) for _ in range(npts)] for _ in c['keys']]
+                c['c_units'] = [rng.choice(['M', 'mM', 'uM', 'mol/m3']) for _ in c['keys']]
+            if fn.startswith('henry'):
+                c.update(Hcp=lu(1e-6, 1e-1), Tderiv=g6(rng.uniform(-500, 4000)), Tref=rng.choice([None, 293.15, g6(rng.uniform(273.15, 310))]),
+                         H_unit=rng.choice(['M/atm', 'mol/m3/Pa']), cls=rng.choice(['Henry', 'HenryWithUnits']), implicit_units=rng.random() < 0.5,
+                         xs=[lu(1e-4, 10) for _ in range(npts)],
+                         x_unit=rng.choice(['bar', 'Pa', 'atm', 'kPa']) if fn == 'henry_get_c' else rng.choice(['M', 'mM', 'uM']))
+            if fn == 'nernst':
+                c.update(cos=[lu(1e-5, 1) for _ in range(npts)], ci=lu(1e-5, 1), z=rng.choice([-2, -1, 1, 2]), constants=rng.random() < 0.4,
+                         co_unit=rng.choice(['M', 'mM', 'uM']), ci_unit=rng.choice(['M', 'mM', 'uM']), T_scalar=rng.random() < 0.5)
+            if fn == 'mobility':
+                c.update(Ds=[lu(1e-11, 1e-7) for _ in range(npts)], z=rng.choice([-2, -1, 1, 2]), constants=rng.random() < 0.4,
+                         D_unit=rng.choice(['m2/s', 'cm2/s']))
+            add(c)
         return cases
 
     # ---- preparing a real call -----------------------------------------------------------------------------
@@ -451,7 +493,7 @@ class C19(Property):
     # ---- model cases ---------------------------------------------------------------------------------------------
     def model_case(self, c):
         fn, mode = c['fn'], c['mode']
-        if mode in ('oracle_units', 'anchor', 'history'):
+        if mode in ('oracle_units', 'anchor', 'history', 'grid'):
             return None
         mc = dict(c)
         if mode == 'rat':
@@ -730,6 +772,8 @@ class C19(Property):
         U = self.U()
         if mode == 'anchor':
             return self._oracle_anchors()
+        if mode == 'grid':
+            return self._oracle_grid(c)
         if mode == 'history':
             # the first verdict is kept: on a tree with hidden state a second evaluation in the same process starts from the polluted state
             k = json.dumps(c, sort_keys=True)
@@ -884,6 +928,150 @@ class C19(Property):
                 c['conc'], c['T'], rho, w, back, atol)
         return None
 
+    def _shaped(self, vals, c, kind='full'):
+        """numpy array of the case's shape from a flat list (kind 'row': varies along axis 0 of a 2-d mesh, 'col': along axis 1)"""
+        import numpy as np
+        sh = c['shape']
+        if sh == '0d':
+            return np.array(float(vals[0]))
+        if sh in ('1d', 'list'):
+            return np.array(vals, dtype=float)
+        if kind == 'row':
+            return np.array(vals[:c['rows']], dtype=float).reshape(c['rows'], 1)
+        if kind == 'col':
+            return np.array(vals[:c['cols']], dtype=float).reshape(1, c['cols'])
+        return np.array(vals, dtype=float).reshape(c['rows'], c['cols'])
+
+    def _wrap(self, arr, unit, c):
+        """array * unit, or (shape 'list') a python list of scalar quantities"""
+        if c['shape'] == 'list':
+            return [float(x) * unit for x in arr]
+        return arr * unit
+
+    def _oracle_grid(self, c):
+        """argument shape x unit: the unit-mode result of an array / list argument, converted to the expected unit, equals the plain-number
+        result of the array of documented-unit magnitudes, element by element (same shape); same warnings"""
+        import numpy as np
+        from chempy.units import to_unitless
+        U = self.U()
+        fn = c['fn']
+        uo = U['usys'][c['usys']]
+        kf = self.unit_info(uo.Kelvin)[0]
+        tunit = uo.Kelvin if c['T_unit'] == self._own(c) else U['units'][c['T_unit']]
+        tf = self.unit_info(tunit)[0]
+        mesh = (c['shape'] == '2d' and fn == 'water_permittivity')
+        Tp = self._shaped(c['Ts'], c, 'row' if mesh else 'full')           # magnitudes in the unit `uo.Kelvin`
+        Tq = self._wrap(Tp * (kf / tf), tunit, c)
+        if c['shape'] == 'list':
+            Tp = [float(x) for x in Tp]
+        eu = None
+        if fn in ('water_density', 'water_viscosity', 'water_diffusivity'):
+            from chempy.properties.water_density_tanaka_2001 import water_density
+            from chempy.properties.water_viscosity_korson_1969 import water_viscosity
+            from chempy.properties.water_diffusivity_holz_2000 import water_self_diffusion_coefficient
+            f = {'water_density': water_density, 'water_viscosity': water_viscosity, 'water_diffusivity': water_self_diffusion_coefficient}[fn]
+            plain, unit = (lambda: f(Tp)), (lambda: f(Tq, units=uo))
+            eu = self._expected_unit(c, uo)[0]
+        elif fn == 'water_permittivity':
+            from chempy.properties.water_permittivity_bradley_pitzer_1979 import water_permittivity
+            Pp = self._shaped(c['Ps'], c, 'col' if mesh else 'full')
+            punit = U['units'][c['P_unit']]
+            Pq = self._wrap(Pp * (self.unit_info(uo.bar)[0] / self.unit_info(punit)[0]), punit, c)
+            if c['shape'] == 'list':
+                Pp = [float(x) for x in Pp]
+            plain, unit = (lambda: water_permittivity(Tp, Pp)), (lambda: water_permittivity(Tq, Pq, units=uo))
+            eu = U['pq'].dimensionless
+        elif fn == 'sulfuric_acid_density':
+            from chempy.properties.sulfuric_acid_density_myhre_1998 import sulfuric_acid_density
+            plain, unit = (lambda: sulfuric_acid_density(c['w'], Tp)), (lambda: sulfuric_acid_density(c['w'], Tq, units=uo))
+            eu = self._expected_unit(c, uo)[0]
+        elif fn == 'lg_solubility_ratio':
+            from chempy.properties.gas_sol_electrolytes_schumpe_1993 import lg_solubility_ratio
+            mf = self.unit_info(uo.molar)[0]
+            elp = {k: self._shaped(v, c) for k, v in zip(c['keys'], c['concs'])}
+            elq = {k: self._wrap(elp[k] * (mf / self.unit_info(U['units'][un])[0]), U['units'][un], c) for k, un in zip(c['keys'], c['c_units'])}
+            if c['shape'] == 'list':
+                elp = {k: [float(x) for x in v] for k, v in elp.items()}
+            plain, unit = (lambda: lg_solubility_ratio(elp, c['gas'])), (lambda: lg_solubility_ratio(elq, c['gas'], units=uo))
+            eu = U['pq'].dimensionless
+        elif fn.startswith('henry'):
+            hp, _, _, _, _ = self._henry(c, None)
+            hq, kw, _, _, _ = self._henry(dict(c, T0_unit=None, Td_unit=None), uo)
+            if fn == 'henry_call':
+                plain, unit = (lambda: hp(Tp)), (lambda: hq(Tq, **kw))
+            else:
+                xp = self._shaped(c['xs'], c)
+                xunit = U['units'][c['x_unit']]
+                ref = 101325.0 if fn == 'henry_get_c' else 1000.0           # x is a pressure in atm / a concentration in M
+                xq = self._wrap(xp * (ref / self.unit_info(xunit)[0]), xunit, c)
+                if c['shape'] == 'list':
+                    xp = [float(x) for x in xp]
+                if fn == 'henry_get_c':
+                    plain, unit = (lambda: hp.get_c_at_T_and_P(Tp, xp)), (lambda: hq.get_c_at_T_and_P(Tq, xq, **kw))
+                else:
+                    plain, unit = (lambda: hp.get_P_at_T_and_c(Tp, xp)), (lambda: hq.get_P_at_T_and_c(Tq, xq, **kw))
+            eu = self._expected_unit(c, uo)[0]
+        elif fn == 'nernst':
+            from chempy.electrochemistry.nernst import nernst_potential
+            cop = self._shaped(c['cos'], c)
+            coq = self._wrap(cop * (1000.0 / self.unit_info(U['units'][c['co_unit']])[0]), U['units'][c['co_unit']], c)
+            ciq = self._q(c['ci'] * 1000.0 / self.unit_info(U['units'][c['ci_unit']])[0], c['ci_unit'])
+            if c['T_scalar']:
+                Tp, Tq = c['Ts'][0], (c['Ts'][0] * kf / tf) * tunit
+            if c['shape'] == 'list':
+                cop = [float(x) for x in cop]
+            if c['constants']:
+                # physical constants: the plain call needs kelvin
+                consts_p = types.SimpleNamespace(Faraday_constant=96485.3399, molar_gas_constant=8.314472)
+                Tk = (np.asarray(Tp) * kf) if not isinstance(Tp, list) else [x * kf for x in Tp]
+                plain = lambda: nernst_potential(cop, c['ci'], c['z'], Tk, consts_p, backend=np)
+                unit = lambda: nernst_potential(coq, ciq, c['z'], Tq, U['dc'], backend=np)
+            else:
+                plain = lambda: nernst_potential(cop, c['ci'], c['z'], Tp, backend=np)
+                unit = lambda: nernst_potential(coq, ciq, c['z'], Tq, None, uo, backend=np)
+            eu = self._expected_unit(c, uo)[0]
+        elif fn == 'mobility':
+            from chempy.einstein_smoluchowski import electrical_mobility_from_D
+            Dp = self._shaped(c['Ds'], c)
+            Dq = self._wrap(Dp / self.unit_info(U['units'][c['D_unit']])[0], U['units'][c['D_unit']], c)
+            if c['shape'] == 'list':
+                Dp = [float(x) for x in Dp]
+            if c['constants']:
+                consts_p = types.SimpleNamespace(Boltzmann_constant=1.3806504e-23, elementary_charge=1.602176487e-19)
+                Tk = (np.asarray(Tp) * kf) if not isinstance(Tp, list) else [x * kf for x in Tp]
+                plain = lambda: electrical_mobility_from_D(Dp, c['z'], Tk, consts_p)
+                unit = lambda: electrical_mobility_from_D(Dq, c['z'], Tq, U['dc'])
+            else:
+                plain = lambda: electrical_mobility_from_D(Dp, c['z'], Tp)
+                unit = lambda: electrical_mobility_from_D(Dq, c['z'], Tq, None, uo)
+            eu = self._expected_unit(c, uo)[0]
+        else:
+            return None
+        p = self._run(plain)
+        r = self._run(unit)
+        if p[0] == 'exc':
+            # the plain-number mode itself refuses this argument shape (python lists): outside the documented domain; unit mode must not invent a value
+            # (python lists of quantities are outside the documented argument types; numpy strips the units of list entries - not judged)
+            return None
+        if r[0] == 'exc':
+            return '%s with a %s argument in %s (units object %s) raised %s; plain mode gives %r' % (
+                fn, c['shape'], c['T_unit'], c['usys'], r[1], np.asarray(p[1]).ravel()[:3].tolist())
+        try:
+            got = np.asarray(to_unitless(r[1], eu), dtype=float) if hasattr(r[1], 'dimensionality') or eu is not None else np.asarray(r[1], dtype=float)
+        except Exception as e:
+            return '%s with a %s argument: result %r does not have the dimension of %s (%s)' % (fn, c['shape'], r[1], eu, exc_name(e))
+        want = np.asarray(p[1], dtype=float)
+        if got.shape != want.shape:
+            return '%s with a %s argument: result shape %r, plain mode %r' % (fn, c['shape'], got.shape, want.shape)
+        bad = [i for i, (a, b) in enumerate(zip(got.ravel(), want.ravel())) if not close(a, b, self.float_tol, 1e-300)]
+        if bad:
+            i = bad[0]
+            return ('%s with a %s argument of shape %r in %s (units object %s): element %d is %r, plain mode %r (%d of %d elements differ)'
+                    % (fn, c['shape'], want.shape, c['T_unit'], c['usys'], i, float(got.ravel()[i]), float(want.ravel()[i]), len(bad), got.size))
+        if sorted(set(r[2])) != sorted(set(p[2])):
+            return '%s with a %s argument: warnings with units %r, plain %r' % (fn, c['shape'], r[2], p[2])
+        return None
+
     def _oracle_history(self, c):
         """a sequence of unit-mode calls with ONE units object: every call must give the plain-number value of the same arguments"""
         from chempy.properties.water_diffusivity_holz_2000 import water_self_diffusion_coefficient as wsd
@@ -991,6 +1179,9 @@ class C19(Property):
         s = '%s:%s' % (c['fn'], c['mode'])
         if c['mode'] == 'history':
             return s
+        if c['mode'] == 'grid':
+            own = 'mK' if c['usys'] == 'alt_mK' else 'K'
+            return s + ':' + c['shape'] + (':ownT' if c['T_unit'] == own else ':scaledT')
         if c.get('err') is not None:
             s += ':err_mult'
         if c['fn'].startswith('henry'):
